@@ -90,6 +90,7 @@ def ops():
         {"op": "iadd_list_dup"},
         {"op": "attach_pattern", "what": "fresh"},
         {"op": "attach_pattern", "what": "foreign"},
+        {"op": "attach_pattern", "what": "foreign_clone"},
         {"op": "attach_pattern", "what": "none"},
         {"op": "attach_pattern", "what": "clone"},
         {"op": "bulk", "how": "gen_partial"},
@@ -116,6 +117,8 @@ class Own:
         L["qmod"] = q.new_module(rv.m.Amplifier)
         L["qpat"] = rv.Pattern(tracks=1, lines=1)
         q.attach_pattern(L["qpat"])
+        L["qclone"] = rv.PatternClone(source=0)
+        q.attach_pattern(L["qclone"])
         return L
 
     def apply(self, L, op):
@@ -198,16 +201,17 @@ class Own:
                 expect_same = False
             elif k == "attach_pattern":
                 w = op["what"]
-                if w == "foreign":
+                if w in ("foreign", "foreign_clone"):
                     sq = S.project(L["q"])
                     sp = S.project(p)
+                    fp = L["qpat"] if w == "foreign" else L["qclone"]
                     try:
-                        p.attach_pattern(L["qpat"])
+                        p.attach_pattern(fp)
                         outcome = "accepted"
                     except PatternOwnershipError:
                         outcome = "raise:PatternOwnershipError"
-                    if S.diff(sq, S.project(L["q"])) or S.diff(sp, S.project(p)) or L["qpat"].project is not L["q"]:
-                        L["viol"].append(C.viol("refused-attach-changes-state", {"op": "attach_pattern_foreign"}, {}))
+                    if S.diff(sq, S.project(L["q"])) or S.diff(sp, S.project(p)) or fp.project is not L["q"]:
+                        L["viol"].append(C.viol("refused-attach-changes-state", {"op": "attach_pattern_" + w}, {}))
                 else:
                     pat = rv.Pattern(tracks=2, lines=2) if w == "fresh" else rv.PatternClone(source=0) if w == "clone" else None
                     idx = p.attach_pattern(pat)
@@ -381,7 +385,7 @@ class Own:
             mods.append(None)
         elif k == "attach_pattern":
             w = op["what"]
-            if w == "foreign":
+            if w in ("foreign", "foreign_clone"):
                 return "raise:PatternOwnershipError"
             m["pats"].append({"fresh": "Pattern", "clone": "PatternClone", "none": None}[w])
         elif k == "bulk":
